@@ -17,7 +17,7 @@ package queues
 //@ assumption: fewer than 2^64-1 items are ever written to one Queue between two purges (writeCount does not wrap)
 
 //@ func NewQueue
-//@   props C04 C01 C17
+//@   props C04 C01 C17 CORE
 //@   modifies $alloc
 //@   ensures [fresh] $fresh(result)
 //@   ensures [empty] result.readCount == 0 && result.writeCount == 0 && !result.closed
@@ -26,12 +26,12 @@ package queues
 //@   ghost at return: result.$base[result.readChunk] := 0
 
 //@ func Queue.Len
-//@   props C17 C04
+//@   props C17 C04 CORE
 //@   requires q.readCount <= q.writeCount && q.writeCount - q.readCount <= MaxInt
 //@   ensures [len] result == q.writeCount - q.readCount && result >= 0
 
 //@ func Queue.Enqueue
-//@   props C04 C01 C10 C17
+//@   props C04 C01 C10 C17 CORE
 //@   requires @RI_Queue(q) && q.writeCount < MaxUint64
 //@   modifies $alloc, q.writeChunk, q.writeCount, q.$lg, q.$base, q.$inQ,
 //@            linkedbuffer.Chunk.Data, linkedbuffer.Chunk.NextWriteIndex, linkedbuffer.Chunk.NextReadIndex, linkedbuffer.Chunk.Next, linkedbuffer.Chunk.Data[**]
@@ -46,7 +46,7 @@ package queues
 //@   ghost after call sync/atomic.Uint64.Add: q.$lg[q.writeCount - 1] := typedItem
 
 //@ func Queue.Dequeue
-//@   props C04 C01 C10 C17
+//@   props C04 C01 C10 C17 CORE
 //@   requires @RI_Queue(q)
 //@   modifies q.readChunk, q.readCount, q.$inQ, linkedbuffer.Chunk.NextReadIndex, linkedbuffer.Chunk.Data[**]
 //@   ensures [ri]    @RI_Queue(q)
@@ -73,7 +73,7 @@ package queues
 //@   loop 2: invariant [items] forall k int :: 0 <= k && k < len(values) ==> values[k] == $box(T, q.$lg[q.readCount + k])
 
 //@ func Queue.Purge
-//@   props C04 C10 C17
+//@   props C04 C10 C17 CORE
 //@   modifies $alloc, q.readChunk, q.writeChunk, q.readCount, q.writeCount, q.$lg, q.$base, q.$inQ,
 //@            linkedbuffer.Chunk.Data, linkedbuffer.Chunk.NextWriteIndex, linkedbuffer.Chunk.NextReadIndex, linkedbuffer.Chunk.Next, linkedbuffer.Chunk.Data[**]
 //@   requires q.maxCapacity >= 1 && q.maxCapacity <= 4611686018427387904
@@ -179,7 +179,7 @@ package queues
 //@   loop 1: invariant [items] forall k int :: 0 <= k && k < len(values) ==> values[k] == $box(T, q.internal.items[k].Value)
 
 //@ func NewPriorityQueue
-//@   props C04 C17
+//@   props C04 C17 CORE
 //@   modifies $alloc
 //@   ensures [fresh] $fresh(result) && result.insertionCount == 0 && !result.closed
 //@   ensures [empty] len(result.internal.items) == 0
@@ -190,12 +190,12 @@ package queues
 //@   ghost after call container/heap.Init: pq.$mem := $emptyset()
 
 //@ func PriorityQueue.Len
-//@   props C17 C04
+//@   props C17 C04 CORE
 //@   requires q.internal != nil
 //@   ensures result == len(q.internal.items)
 
 //@ func PriorityQueue.Enqueue
-//@   props C04 C01 C10 C17
+//@   props C04 C01 C10 C17 CORE
 //@   inlines container/heap.Push, container/heap.up
 //@   requires RI_PQ(q) && q.insertionCount < MaxInt && len(q.internal.items) < 2305843009213693952
 //@   modifies $alloc, q.insertionCount, heapQueue.items, heapQueue.items[**], heapQueue.$mem, heapQueue.$idx
@@ -210,7 +210,7 @@ package queues
 //@                               && q.internal.$mem == $store(old(q.internal.$mem), $addr(i), true) && q.insertionCount == old(q.insertionCount) + 1
 
 //@ func PriorityQueue.Dequeue
-//@   props C04 C01 C10 C17
+//@   props C04 C01 C10 C17 CORE
 //@   inlines container/heap.Pop, container/heap.down
 //@   requires RI_PQ(q)
 //@   modifies heapQueue.items, heapQueue.items[**], heapQueue.$mem, heapQueue.$idx
@@ -231,7 +231,7 @@ package queues
 //@   ensures !@hlt(a[k], a[0])
 
 //@ func PriorityQueue.Purge
-//@   props C04 C10 C17
+//@   props C04 C10 C17 CORE
 //@   requires q.internal != nil
 //@   modifies $alloc, heapQueue.items, heapQueue.items[**], heapQueue.$mem, heapQueue.$idx
 //@   ensures [empty] len(q.internal.items) == 0 && RI_PQ(q)
